@@ -73,18 +73,18 @@ func IMMSites() []Site {
 func CTORSites() []Site {
 	c1, c2, c3 := []string{"CTOR01"}, []string{"CTOR02"}, []string{"CTOR03"}
 	return []Site{
-		{Tag: "lit T{}", Stmt: "_ = {T}{}", Subj: SubjT, Codes: c1, Core: true, PkgLevel: "var $g = {T}{}"},
-		{Tag: "lit &T{}", Stmt: "_ = &{T}{}", Subj: SubjT, Codes: c1, PkgLevel: "var $g = &{T}{}"},
-		{Tag: "lit T{F:1}", Stmt: "_ = {T}{F: 1}", Subj: SubjT, Codes: c1},
+		{Tag: "lit T{}", Stmt: "_ = {TL}{}", Subj: SubjT, Codes: c1, Core: true, PkgLevel: "var $g = {TL}{}"},
+		{Tag: "lit &T{}", Stmt: "_ = &{TL}{}", Subj: SubjT, Codes: c1, PkgLevel: "var $g = &{TL}{}"},
+		{Tag: "lit T{F:1}", Stmt: "_ = {TL}{F: 1}", Subj: SubjT, Codes: c1},
 		{Tag: "lit []T{{}}", Stmt: "_ = []{T}{{}}", Subj: SubjT, Codes: c1, PkgLevel: "var $g = []{T}{{}}"},
 		{Tag: "lit []*T{{}}", Stmt: "_ = []{PT}{{}}", Subj: SubjT, Codes: c1},
-		{Tag: "lit map[string]T{k:{}}", Stmt: `_ = map[string]{T}{"k": {}}`, Subj: SubjT, Codes: c1},
-		{Tag: "lit O{In:T{}}", Stmt: "_ = {O}{In: {T}{}}", Subj: SubjT, Codes: c1},
-		{Tag: "lit define v:=T{}", Stmt: "$v := {T}{}; _ = $v", Subj: SubjT, Codes: c1},
-		{Tag: "lit var v=T{}", Stmt: "var $v = {T}{}; _ = $v", Subj: SubjT, Codes: c1},
-		{Tag: "lit arg use(T{})", Stmt: "use({T}{})", Subj: SubjT, Codes: c1},
-		{Tag: "lit assign *p=T{}", Stmt: "*p = {T}{}", Subj: SubjT, Codes: c1},
-		{Tag: "lit two T{},T{}", Stmt: "_, _ = {T}{}, &{T}{}", Subj: SubjT, Codes: []string{"CTOR01", "CTOR01"}},
+		{Tag: "lit map[string]T{k:{}}", Stmt: `_ = map[string]{TL}{"k": {}}`, Subj: SubjT, Codes: c1},
+		{Tag: "lit O{In:T{}}", Stmt: "_ = {O}{In: {TL}{}}", Subj: SubjT, Codes: c1},
+		{Tag: "lit define v:=T{}", Stmt: "$v := {TL}{}; _ = $v", Subj: SubjT, Codes: c1},
+		{Tag: "lit var v=T{}", Stmt: "var $v = {TL}{}; _ = $v", Subj: SubjT, Codes: c1},
+		{Tag: "lit arg use(T{})", Stmt: "use({TL}{})", Subj: SubjT, Codes: c1},
+		{Tag: "lit assign *p=T{}", Stmt: "*p = {TL}{}", Subj: SubjT, Codes: c1},
+		{Tag: "lit two T{},T{}", Stmt: "_, _ = {TL}{}, &{TL}{}", Subj: SubjT, Codes: []string{"CTOR01", "CTOR01"}},
 		{Tag: "new(T)", Stmt: "_ = new({T})", Subj: SubjT, Codes: c2, Core: true, PkgLevel: "var $g = new({T})"},
 		{Tag: "new var v=new(T)", Stmt: "var $v = new({T}); _ = $v", Subj: SubjT, Codes: c2},
 		{Tag: "new arg use(new(T))", Stmt: "use(new({T}))", Subj: SubjT, Codes: c2},
